@@ -47,6 +47,9 @@ type BridgeCfg struct {
 	Seeds    [][]engine.Op
 	MaxCancelID int64
 	NoPrices bool
+	ParamsMod func(p *mhubtypes.Params) // applied to the genesis params last
+	ParamChanges [][2]string // governance parameter changes (key, JSON value) of the mhub2 subspace offered as op Param(i)
+	Relist   []int // token rows a governance TokenInfosChangeProposal may remove from / put back on the list (op Relist)
 }
 
 type Bridge struct {
@@ -103,6 +106,19 @@ func (b *Bridge) Genesis() hub.Genesis {
 	p := *g.Hub.Params
 	if b.Cfg.Timeout > 0 {
 		p.OutgoingTxTimeout = uint64(b.Cfg.Timeout) * 1000
+	}
+	if b.Cfg.ParamsMod != nil {
+		b.Cfg.ParamsMod(&p)
+		// per-chain genesis state only for the chains the parameters configure (the export walks the configured chains)
+		var keep []*mhubtypes.ExternalState
+		for _, es := range g.Hub.ExternalStates {
+			for _, c := range p.Chains {
+				if c == es.ChainId {
+					keep = append(keep, es)
+				}
+			}
+		}
+		g.Hub.ExternalStates = keep
 	}
 	g.Hub.Params = &p
 	return g
@@ -174,6 +190,8 @@ type bridgeGhost struct {
 	ObsHeight map[string]uint64
 	// FakeAt: chain -> event nonce for which the Byzantine validator already cast its far-ahead claim
 	FakeAt map[string]uint64
+	// Delisted: "chain|denom" rows currently removed from the token list by governance
+	Delisted map[string]bool
 }
 
 // wbatch is what a relayer keeps of a batch once offered for signing.
@@ -255,7 +273,7 @@ func (g *bridgeGhost) Clone() Ghost {
 	n := &bridgeGhost{EvNonce: cloneU(g.EvNonce), ExtHeight: cloneU(g.ExtHeight), Custody: cloneBig(g.Custody), LastExec: cloneU(g.LastExec),
 		Xfers: map[string]*xfer{}, ExecUnobs: append([]extBatch(nil), g.ExecUnobs...), BatchSeen: cloneB(g.BatchSeen), BatchSeq: cloneU(g.BatchSeq),
 		LastBatchNonce: cloneU(g.LastBatchNonce), LastSeq: cloneU(g.LastSeq), Pending: append([]pendingEvent(nil), g.Pending...),
-		Debt: cloneS(g.Debt), TimedOutOK: cloneB(g.TimedOutOK), Withdrawn: cloneW(g.Withdrawn), ObsHeight: cloneU(g.ObsHeight), FakeAt: cloneU(g.FakeAt), RefundedHash: cloneB(g.RefundedHash), LagA: g.LagA}
+		Debt: cloneS(g.Debt), TimedOutOK: cloneB(g.TimedOutOK), Withdrawn: cloneW(g.Withdrawn), ObsHeight: cloneU(g.ObsHeight), FakeAt: cloneU(g.FakeAt), RefundedHash: cloneB(g.RefundedHash), LagA: g.LagA, Delisted: cloneB(g.Delisted)}
 	for k, v := range g.Xfers {
 		c := *v
 		n.Xfers[k] = &c
@@ -318,13 +336,13 @@ func (g *bridgeGhost) Canon() string {
 	}
 	sort.Strings(xs)
 	return strings.Join([]string{canonMap(g.EvNonce), canonMap(g.ExtHeight), canonMap(g.Custody), canonMap(g.LastExec),
-		strings.Join(xs, ";"), fmt.Sprint(g.ExecUnobs), fmt.Sprint(g.Pending), canonMap(g.Debt), canonMap(g.TimedOutOK), strings.Join(g.withdrawnKeys(), ","), canonMap(g.ObsHeight), canonMap(g.FakeAt), canonMap(g.RefundedHash), fmt.Sprint(g.LagA)}, "#")
+		strings.Join(xs, ";"), fmt.Sprint(g.ExecUnobs), fmt.Sprint(g.Pending), canonMap(g.Debt), canonMap(g.TimedOutOK), strings.Join(g.withdrawnKeys(), ","), canonMap(g.ObsHeight), canonMap(g.FakeAt), canonMap(g.RefundedHash), fmt.Sprint(g.LagA), canonMap(g.Delisted)}, "#")
 }
 
 func (b *Bridge) NewGhost(in *hub.Instance) Ghost {
 	g := &bridgeGhost{EvNonce: map[string]uint64{}, ExtHeight: map[string]uint64{}, Custody: map[string]*big.Int{}, LastExec: map[string]uint64{},
 		Xfers: map[string]*xfer{}, BatchSeen: map[string]bool{}, BatchSeq: map[string]uint64{}, LastBatchNonce: map[string]uint64{}, LastSeq: map[string]uint64{},
-		Debt: map[string]string{}, TimedOutOK: map[string]bool{}, Withdrawn: map[string]*wbatch{}, ObsHeight: map[string]uint64{}, FakeAt: map[string]uint64{}, RefundedHash: map[string]bool{}}
+		Debt: map[string]string{}, TimedOutOK: map[string]bool{}, Withdrawn: map[string]*wbatch{}, ObsHeight: map[string]uint64{}, FakeAt: map[string]uint64{}, RefundedHash: map[string]bool{}, Delisted: map[string]bool{}}
 	for _, c := range AllExtChains {
 		g.ExtHeight[c] = 1000
 	}
@@ -550,6 +568,16 @@ func (b *Bridge) Ops(s *HState) []engine.Op {
 			ops = append(ops, engine.OpN("Rotate", k))
 		}
 	}
+	if on("Param") {
+		for i := range c.ParamChanges {
+			ops = append(ops, engine.OpN("Param", i))
+		}
+	}
+	if on("Relist") {
+		for _, row := range c.Relist {
+			ops = append(ops, engine.OpN("Relist", row))
+		}
+	}
 	if on("ColdStorage") {
 		for _, ch := range c.SendChains {
 			ops = append(ops, engine.OpN("ColdStorage", ch, c.SendDenoms[0]))
@@ -699,6 +727,33 @@ func (b *Bridge) Do(in *hub.Instance, gg Ghost, op engine.Op, st *engine.Step) {
 			in.DeliverMsg(&oracletypes.MsgHoldersClaim{Epoch: epoch, Holders: &oracletypes.Holders{List: []*oracletypes.Holder{{Address: b.Usr[0].String(), Value: sdk.NewInt(32).Mul(sdk.NewInt(1_000_000_000_000_000_000))}}}, Orchestrator: v.Acc.String()})
 		}
 		st.Obs = "holders"
+	case "Param":
+		pc := b.Cfg.ParamChanges[op.I[0]]
+		err := in.ParamChange(mhubtypes.DefaultParamspace, pc[0], pc[1])
+		st.Obs = fmt.Sprint(err == nil)
+		if err == nil {
+			st.Count("parameter_changes", 1)
+		}
+	case "Relist":
+		// governance replaces the token list: the row is removed if listed, put back if removed
+		row := b.Cfg.Tokens[op.I[0]]
+		key := row.Chain + "|" + row.Denom
+		want := !g.Delisted[key]
+		var infos []*mhubtypes.TokenInfo
+		for i, t := range b.Cfg.Tokens {
+			k := t.Chain + "|" + t.Denom
+			if (k == key && want) || (k != key && g.Delisted[k]) {
+				continue
+			}
+			infos = append(infos, &mhubtypes.TokenInfo{Id: uint64(i + 1), Denom: t.Denom, ChainId: t.Chain, ExternalTokenId: t.ExtID,
+				ExternalDecimals: t.Dec, Commission: sdk.NewDec(t.CommissionBP).QuoInt64(10000)})
+		}
+		err := in.Proposal(&mhubtypes.TokenInfosChangeProposal{NewInfos: &mhubtypes.TokenInfos{TokenInfos: infos}})
+		if err == nil {
+			g.Delisted[key] = want
+			st.Count("token_list_changes", 1)
+		}
+		st.Obs = fmt.Sprint(err == nil, want)
 	case "ColdStorage":
 		ch, d := op.S[0], op.S[1]
 		err := in.Proposal(&mhubtypes.ColdStorageTransferProposal{ChainId: ch, Amount: sdk.NewCoins(sdk.NewInt64Coin(d, 777))})
@@ -1081,7 +1136,20 @@ func init() {
 		np.DepChains = []string{"ethereum"}
 		ec2 := ec
 		ec2.Deadline = ec.Deadline / 3
-		return []MultiCase{{Name: "oracle prices present", Spec: NewBridge(cfg), Cfg: ec}, {Name: "no oracle prices yet", Spec: NewBridge(np), Cfg: ec2}}, bridgeAssumptions(cfg)
+		// a token with more than 18 decimals on ethereum, fee-paying transfers from Minter, fee surplus at execution
+		hd := cfg
+		hd.Tokens = stdTokens(24)
+		hd.DepChains = []string{"minter"}
+		hd.DepDests = []string{"ethereum"}
+		hd.DepAmts = []int64{100000}
+		hd.DepFees = []int64{3, 40}
+		hd.SendChains = []string{"ethereum"}
+		hd.Amounts = []int64{1000}
+		hd.Fees = []int64{7}
+		hd.Ops = opsSet("Next", "Deposit", "ReqBatch", "Exec", "ExtAdvance", "NextTimeout")
+		hd.Seeds = [][]engine.Op{append(append([]engine.Op{}, seedObserved...), engine.OpN("Deposit", "minter", "hub", "ethereum", 0, 0), engine.OpN("Next", 5))}
+		return []MultiCase{{Name: "oracle prices present", Spec: NewBridge(cfg), Cfg: ec}, {Name: "no oracle prices yet", Spec: NewBridge(np), Cfg: ec2},
+			{Name: "24-decimals token, fee-paying transfers from Minter, fee surplus at execution", Spec: NewBridge(hd), Cfg: ec2}}, bridgeAssumptions(cfg)
 	}))
 	Register("C13", MultiRunner(func(tier string) ([]MultiCase, []string) {
 		cfg, ec := bridgeCfgFor("C13", tier)
@@ -1099,8 +1167,52 @@ func init() {
 		cc.Ops = opsSet("Next", "Exec", "Deposit", "ExtAdvance", "ExtAdvanceSmall")
 		cc.SendChains = []string{"ethereum"}
 		cc.DepChains = []string{"ethereum"}
+		// transfers of a few hundred units: the validators' commission is 2 units, less than one unit per validator
+		dd := cfg
+		dd.Seeds = [][]engine.Op{seedObserved}
+		dd.Amounts = []int64{250}
+		dd.Ops = opsSet("Next", "Send", "ReqBatch", "Exec")
+		dd.SendChains = []string{"ethereum", "minter"}
+		dd.SendDenoms = []string{"hub"}
+		// token contracts as they are spelled in a real token list (EIP-55 mixed case): their byte order (the store's) and their
+		// case-insensitive order disagree ('C' < 'a' as bytes, "0xa4.." < "0xc0.." without case); three batches are pending:
+		// hub #1, eth #2, hub #3 - in both assignments of the two contracts
+		mk := func(hubID, ethID string) BridgeCfg {
+			x := cfg
+			x.Tokens = append([]TokenRow{}, cfg.Tokens...)
+			for i := range x.Tokens {
+				if x.Tokens[i].Chain == "ethereum" && x.Tokens[i].Denom == "hub" {
+					x.Tokens[i].ExtID = hubID
+				}
+				if x.Tokens[i].Chain == "ethereum" && x.Tokens[i].Denom == "eth" {
+					x.Tokens[i].ExtID = ethID
+				}
+			}
+			x.Seeds = [][]engine.Op{append(append([]engine.Op{}, seedTwoTokenBatches...), engine.OpN("Send", "ethereum", "hub", 0, 0, 0), engine.OpN("ReqBatch", "ethereum", "hub"))}
+			x.Ops = opsSet("Next", "Exec", "Deposit", "ExtAdvance")
+			x.SendChains = []string{"ethereum"}
+			x.DepChains = []string{"ethereum"}
+			return x
+		}
+		// a token with more than 18 decimals on ethereum, transfers that come from Minter and carry a fee, a relayer whose
+		// valued gas cost is below the collected fees: the surplus is refunded to the Minter senders at execution
+		hd := cfg
+		hd.Tokens = stdTokens(24)
+		hd.DepChains = []string{"minter"}
+		hd.DepDests = []string{"ethereum"}
+		hd.DepAmts = []int64{100000}
+		hd.DepFees = []int64{3, 40}
+		hd.SendChains = []string{"ethereum"}
+		hd.SendDenoms = []string{"hub"}
+		hd.Ops = opsSet("Next", "Deposit", "ReqBatch", "Exec")
+		hd.Seeds = [][]engine.Op{append(append([]engine.Op{}, seedObserved...), engine.OpN("Deposit", "minter", "hub", "ethereum", 0, 0), engine.OpN("Next", 5))}
+		const weth, ust = "0xC02aaA39b223FE8D0A0e5C4F27eAD9083C756Cc2", "0xa47c8bf37f92aBed4A126BDA807A7b7498661acD"
 		return []MultiCase{{Name: "from observed heights", Spec: NewBridge(a), Cfg: ec}, {Name: "from two pending batches of different tokens on ethereum", Spec: NewBridge(bb), Cfg: ecb},
-			{Name: "from two batches of one token whose timeouts are not monotone", Spec: NewBridge(cc), Cfg: ecb}}, bridgeAssumptions(cfg)
+			{Name: "from two batches of one token whose timeouts are not monotone", Spec: NewBridge(cc), Cfg: ecb},
+			{Name: "mixed-case contract ids (0xC02a.. = hub, 0xa47c.. = eth), three pending batches", Spec: NewBridge(mk(weth, ust)), Cfg: ecb},
+			{Name: "mixed-case contract ids (0xa47c.. = hub, 0xC02a.. = eth), three pending batches", Spec: NewBridge(mk(ust, weth)), Cfg: ecb},
+			{Name: "transfers whose commission is smaller than the number of validators", Spec: NewBridge(dd), Cfg: ecb},
+			{Name: "24-decimals token, fee-paying transfers from Minter, fee surplus at execution", Spec: NewBridge(hd), Cfg: ecb}}, bridgeAssumptions(cfg)
 	}))
 	Register("C15", MultiRunner(func(tier string) ([]MultiCase, []string) {
 		cfg, ec := bridgeCfgFor("C15", tier)
@@ -1117,8 +1229,44 @@ func init() {
 		lr.Ops = opsSet("Next", "Deposit", "Lag", "Rotate")
 		lr.DepDests = []string{"hub"}
 		lr.Seeds = [][]engine.Op{{engine.OpN("Deposit", "ethereum", "hub", "hub", 0, 0), engine.OpN("Next", 5)}}
+		// parameters at the edge of what their validators admit (governance can set them): zero timeouts and windows, no chain
+		// at all (bridge paused), one chain; every one must survive the round trip as it is
+		pcase := func(name string, mod func(p *mhubtypes.Params)) MultiCase {
+			x := cfg
+			x.ParamsMod = mod
+			x.Ops = opsSet("Next", "Send", "Deposit")
+			x.Seeds = [][]engine.Op{{}}
+			e := ec
+			e.MaxDepth = 2
+			e.Deadline = ec.Deadline / 4
+			return MultiCase{Name: "parameters: " + name, Spec: NewBridge(x), Cfg: e}
+		}
+		// ... and the same values set by governance on the running chain
+		gov := cfg
+		gov.Ops = opsSet("Next", "Send", "Param")
+		gov.Seeds = [][]engine.Op{{}}
+		gov.ParamChanges = [][2]string{{"OutgoingTxTimeout", `"0"`}, {"Chains", `[]`}, {"Chains", `["ethereum"]`}, {"SignedSignerSetTxWindow", `"0"`}, {"SignedBatchesWindow", `"0"`},
+			{"EthereumSignaturesWindow", `"0"`}, {"UnbondSlashingSignerSetTxsWindow", `"0"`}, {"TargetEthTxTimeout", `"60000"`}, {"AverageBlockTime", `"100"`},
+			{"AverageEthereumBlockTime", `"100"`}, {"AverageBscBlockTime", `"100"`}, {"SlashFractionBatch", `"0.000000000000000000"`}, {"ContractHash", `""`},
+			{"BridgeChainID", `"0"`}, {"GravityID", `""`}}
+		ecg := ec
+		ecg.MaxDepth = 3
+		ecg.Deadline = ec.Deadline / 3
 		return []MultiCase{{Name: "bridge histories, oracle prices from genesis", Spec: NewBridge(cfg), Cfg: ec}, {Name: "holders adopted, no prices", Spec: NewBridge(ho), Cfg: ech},
-			{Name: "a lagging validator, rotated delegate keys", Spec: NewBridge(lr), Cfg: ec}}, bridgeAssumptions(cfg)
+			{Name: "a lagging validator, rotated delegate keys", Spec: NewBridge(lr), Cfg: ec},
+			pcase("outgoing transfer timeout 0", func(p *mhubtypes.Params) { p.OutgoingTxTimeout = 0 }),
+			pcase("no chains (bridge paused)", func(p *mhubtypes.Params) { p.Chains = []string{} }),
+			pcase("one chain", func(p *mhubtypes.Params) { p.Chains = []string{"ethereum"} }),
+			pcase("all windows 0, slash fractions 0, empty contract hash, bridge chain id 0", func(p *mhubtypes.Params) {
+				p.SignedSignerSetTxsWindow, p.SignedBatchesWindow, p.EthereumSignaturesWindow, p.UnbondSlashingSignerSetTxsWindow = 0, 0, 0, 0
+				p.SlashFractionSignerSetTx, p.SlashFractionBatch, p.SlashFractionEthereumSignature, p.SlashFractionConflictingEthereumSignature = sdk.ZeroDec(), sdk.ZeroDec(), sdk.ZeroDec(), sdk.ZeroDec()
+				p.ContractSourceHash, p.BridgeChainId = "", 0
+			}),
+			pcase("smallest admitted block times and batch timeout", func(p *mhubtypes.Params) {
+				p.TargetEthTxTimeout, p.AverageBlockTime, p.AverageEthereumBlockTime, p.AverageBscBlockTime = 60000, 100, 100, 100
+			}),
+			{Name: "parameters changed by governance on the running chain", Spec: NewBridge(gov), Cfg: ecg},
+		}, bridgeAssumptions(cfg)
 	}))
 	Register("C10", MultiRunner(func(tier string) ([]MultiCase, []string) {
 		cfg, ec := bridgeCfgFor("C10", tier)
@@ -1135,14 +1283,27 @@ func init() {
 	}))
 	for _, p := range []string{"C04", "C12"} {
 		prop := p
-		Register(prop, BFSRunner(func(tier string) (Spec, engine.Config, []string) {
+		Register(prop, MultiRunner(func(tier string) ([]MultiCase, []string) {
 			cfg, ec := bridgeCfgFor(prop, tier)
-			return NewBridge(cfg), ec, []string{
-				fmt.Sprintf("closed system: %d user(s), 3 honest validators of equal power voting every external event in one block, chains %v, tokens %v", cfg.Users, cfg.SendChains, cfg.Tokens),
-				"external chains are reference ledgers: the contract/multisig locks exactly the deposited amount, executes a batch only if its nonce is newer than the last executed one for the token and block height < timeout (Hub2.sol submitBatch), Minter executes batches in sequence order",
-				"claims are built as orchestrator/cosmos_gravity/src/build.rs and minter-connector/cosmos.CreateClaims build them (Amount=_amount, Fee=_fee)",
-				"staking is a scripted table; alphabet and bounds as listed in coverage",
-			}
+			// governance takes a token off the originating chain's list while a transfer that came from there is
+			// pending elsewhere: its expiry refund cannot be issued (and fails half-way through) until the token is listed again
+			dl := cfg
+			dl.Relist = []int{0} // hub @ ethereum
+			dl.Users = 1
+			dl.Ops = opsSet("Next", "NextTimeout", "Deposit", "Relist", "Send", "ReqBatch")
+			dl.SendChains = []string{"minter", "bsc"}
+			dl.SendDenoms = []string{"hub"}
+			dl.DepChains = []string{"ethereum"}
+			dl.DepDests = []string{"minter", "bsc"}
+			dl.Fees = dl.Fees[:1]
+			pend := []engine.Op{engine.OpN("Next", 5), engine.OpN("Deposit", "ethereum", "hub", "minter", 0, 0), engine.OpN("Next", 5)}
+			// the refund of an unbatched transfer is due when the block after its creation has an odd height (no automatic
+			// batching) and starts after the timeout: both block parities are explored from the start
+			dl.Seeds = [][]engine.Op{{}, {engine.OpN("Next", 5)}, pend, append(append([]engine.Op{}, pend...), engine.OpN("Relist", 0))}
+			ecd := ec
+			ecd.Deadline = ec.Deadline / 2
+			return []MultiCase{{Name: "bridge histories", Spec: NewBridge(cfg), Cfg: ec},
+				{Name: "token taken off the originating chain's list while a transfer from there is pending", Spec: NewBridge(dl), Cfg: ecd}}, bridgeAssumptions(cfg)
 		}))
 	}
 }
